@@ -422,17 +422,37 @@ def scenarios(rnd, thorough):
 
 class DiscoverScenario:
     """a run started through Driver.Discover itself (the entry point the SDK and the debounced configuration change
-    use) with the configuration set: one wildcard listener plays every 127.x.y.z host of the subnets"""
+    use): one wildcard listener plays every 127.x.y.z host of the subnets. Without a history the configuration is
+    installed before the run; with a HISTORY (list of configurations cfg(...) / "X") the service starts with the first
+    entry, every further entry and finally the scenario's own configuration are delivered through
+    Driver.updateWritableConfig, and the run must obey the configuration last delivered."""
 
-    def __init__(self, subnets, async_limit, probe_s, max_s, default_mode, hosts, late_slack_ms=700):
+    def __init__(self, subnets, async_limit, probe_s, max_s, default_mode, hosts, late_slack_ms=700, history=None, label=""):
         self.subnets, self.async_limit, self.probe_s, self.max_s = subnets, async_limit, probe_s, max_s
         self.default_mode, self.hosts, self.late_slack_ms = default_mode, hosts, late_slack_ms
+        self.history, self.label = history or [], label
         self.budget_ms = max_s * 1000 + probe_s * 1000 * (5 if is_script(default_mode) else 1) + SEND_TIMEOUT_MS + SLACK_MS
 
     def go_req(self):
         hs = ["%s,%s,%d,%d,%d,%s" % (h["ip"], h["mode"], h["v"], h["m"], h["t"], hx(h["rid"])) for h in self.hosts]
-        return "discover %s %d %d %d %d %d %s %s" % (",".join(self.subnets), self.async_limit, self.probe_s, self.max_s,
-                                                    self.budget_ms, self.late_slack_ms, self.default_mode, ";".join(hs) or "-")
+        hist = ";".join(e if e == "X" else "%s|%d|%d|%d|%s" % (",".join(e["subnets"]), e["async"], e["probe_s"], e["max_s"], e["port"])
+                        for e in self.history)
+        return "discover %s %d %d %d %d %d %s %s %s" % (",".join(self.subnets), self.async_limit, self.probe_s, self.max_s,
+                                                       self.budget_ms, self.late_slack_ms, self.default_mode, ";".join(hs) or "-", hist or "-")
+
+    def final_cfg(self):
+        return cfg(self.subnets, self.async_limit, self.probe_s, self.max_s, "P")
+
+    def oracle_req(self):
+        """the history as the model sees it: start-up configuration, deliveries, the final delivery, the run"""
+        def enc(e):
+            return "%s/%d/%d/%d/%d" % (hx(",".join(e["subnets"]).encode()), e["async"], e["probe_s"], {"P": 1, "Q": 2}[e["port"]], e["max_s"])
+        if not self.history:
+            return "conf %s R" % enc(self.final_cfg())
+        return "conf %s %s D:%s R" % (enc(self.history[0]), " ".join("X" if e == "X" else "D:" + enc(e) for e in self.history[1:]), enc(self.final_cfg()))
+
+    def n_addresses(self):
+        return sum(max(2 ** (32 - int(sn.split("/")[1])) - 2, 1) for sn in self.subnets)
 
     def to_json(self):
         d = dict(self.__dict__)
@@ -442,7 +462,84 @@ class DiscoverScenario:
     @staticmethod
     def from_json(d):
         return DiscoverScenario(d["subnets"], d["async_limit"], d["probe_s"], d["max_s"], d["default_mode"],
-                                [dict(h, rid=unhx(h["rid"])) for h in d["hosts"]], d.get("late_slack_ms", 700))
+                                [dict(h, rid=unhx(h["rid"])) for h in d["hosts"]], d.get("late_slack_ms", 700),
+                                d.get("history"), d.get("label", ""))
+
+
+def cfg(subnets, async_limit, probe_s, max_s, port="P"):
+    return dict(subnets=list(subnets), **{"async": async_limit}, probe_s=probe_s, max_s=max_s, port=port)
+
+
+def show_cfg(e):
+    return "X(not a CustomConfig)" if e == "X" else "{DiscoverySubnets=%s ProbeAsyncLimit=%d ProbeTimeoutSeconds=%d MaxDiscoverDurationSeconds=%d ScanPort=%s}" % (
+        ",".join(e["subnets"]) or '""', e["async"], e["probe_s"], e["max_s"], "<hosts' port>" if e["port"] == "P" else "<another port>")
+
+
+def config_history_scenarios(rnd, thorough, a0):
+    """Driver.Discover after the configuration changed at run time: every setting changed on its own (raised, lowered, to
+    and from 0 where 0 is a legal value) and all together, with ignored deliveries and a section full of zeros in between.
+    The hosts are chosen so that the setting in question shows: silent hosts hold a worker for exactly one probe timeout."""
+    out = []
+    a = [a0]
+
+    def net(bits=24, n=1):
+        a[0] += 1
+        return ["127.%d.%d.0/%d" % (a[0], 2 * i, bits) for i in range(n)]
+
+    def sc(subnets, al, ps, mx, mode, history, label):
+        out.append(DiscoverScenario(subnets, al, ps, mx, mode, [], history=history, label=label))
+
+    # MaxDiscoverDurationSeconds lowered / set from 0 (no limit): more silent hosts than fit into the new maximum
+    n = net()
+    sc(n, 1, 1, 1, "silent", [cfg(n, 1, 1, 300)], "maximum lowered 300 -> 1")
+    n = net()
+    sc(n, 2, 1, 1, "silent", [cfg(n, 2, 1, 0)], "maximum set 0 -> 1")
+    # ... raised / removed: six silent hosts, two workers, 1 s each: three seconds, all six must be dialled
+    n = net(29)
+    sc(n, 2, 1, 0, "silent", [cfg(n, 2, 1, 1)], "maximum removed 1 -> 0")
+    # ScanPort changed
+    n = net(29)
+    sc(n, 3, 1, 0, "close", [cfg(n, 3, 1, 0, "Q")], "port changed")
+    # DiscoverySubnets changed (also from none configured)
+    n, n2 = net(29), net(30, 2)
+    sc(n2, 3, 1, 0, "close", [cfg(n, 3, 1, 0)], "subnets changed")
+    n = net(29)
+    sc(n, 3, 1, 0, "close", [cfg([], 3, 1, 0)], "subnets set from none")
+    # ProbeTimeoutSeconds lowered; ProbeAsyncLimit raised and lowered
+    n = net()
+    sc(n, 1, 1, 3, "silent", [cfg(n, 1, 2, 3)], "probe timeout lowered 2 -> 1")
+    n = net()
+    sc(n, 4, 1, 1, "silent", [cfg(n, 1, 1, 1)], "workers raised 1 -> 4")
+    n = net()
+    sc(n, 2, 1, 1, "silent", [cfg(n, 8, 1, 1)], "workers lowered 8 -> 2")
+    # everything at once, after an ignored delivery, a section full of zeros and a superseded one
+    n, other = net(), net()
+    sc(n, 3, 1, 1, "silent", [cfg(other, 7, 3, 300, "Q"), "X", cfg([], 0, 0, 0, "Q"), cfg(other, 5, 2, 0, "P"), "X"], "everything changed, junk in between")
+    # the same section delivered again changes nothing
+    n = net()
+    sc(n, 2, 1, 1, "silent", [cfg(n, 2, 1, 1), cfg(n, 2, 1, 1), "X"], "same section again")
+    if thorough:
+        n = net(29)
+        sc(n, 2, 1, 300, "silent", [cfg(n, 2, 1, 1)], "maximum raised 1 -> 300")
+        n = net()
+        sc(n, 1, 2, 3, "silent", [cfg(n, 1, 1, 3)], "probe timeout raised 1 -> 2")
+    for i in range(10 if thorough else 2):
+        n, other = net(rnd.choice([24, 25])), net()
+        fin = cfg(n, rnd.choice([1, 2, 3, 5]), rnd.choice([1, 1, 2]), rnd.choice([1, 2]))
+        hist = []
+        for _ in range(rnd.choice([1, 2, 3, 4])):
+            if rnd.random() < 0.2:
+                hist.append("X")
+                continue
+            e = dict(fin)
+            for fld in rnd.sample(["subnets", "async", "probe_s", "max_s", "port"], rnd.choice([1, 1, 2, 5])):
+                e[fld] = {"subnets": rnd.choice([other, [], n + other]), "async": rnd.choice([1, 4, 9, 0]), "probe_s": rnd.choice([1, 2, 3, 0]),
+                          "max_s": rnd.choice([0, 1, 5, 300]), "port": "Q"}[fld]
+            hist.append(e)
+        if hist[0] == "X":
+            hist[0] = dict(fin, max_s=300)
+        sc(n, fin["async"], fin["probe_s"], fin["max_s"], "silent", hist, "random history %d" % i)
+    return out
 
 
 def dhost(a, b, c, mode, rnd):
@@ -589,6 +686,7 @@ def run(tier, seed, replay=None):
         pmodes = list(PROBE_MODES)
         scens = scenarios(rnd, thorough)
         dscens = discover_scenarios(rnd, thorough)
+        dscens += config_history_scenarios(rnd, thorough, 40)
         probe_budget = PROBE_TIMEOUT_MS + SEND_TIMEOUT_MS + SLACK_MS + (30000 if thorough else 0)
         pscripts = named_scripts(SCRIPT_TIMEOUT_MS, CHAT_MS)
         pscripts += [("random-%d" % i, random_script(rnd, SCRIPT_TIMEOUT_MS, CHAT_MS)) for i in range(150 if thorough else 30)]
@@ -623,6 +721,9 @@ def run(tier, seed, replay=None):
         for (_, rd, fc) in SCRIPT_SETTINGS:
             orc_reqs.append("run 1000 %d %s %d %d P 1 D 0 H 1 1 %s 25882 2001002 0 001625123456 W 1 1 1" % (R, rd, SEND_TIMEOUT_MS, fc, sc))
 
+    conf_base = len(orc_reqs)
+    for ds in dscens:
+        orc_reqs.append(ds.oracle_req())
     longest = max([probe_budget, script_budget] + [s.budget_ms for s in scens] + [sum(d.budget_ms + 45000 for d in dscens)]) / 1000.0
     go_lines, glog, supervised = run_supervised(exe, go_reqs, int(longest + 240))
     rc = 0
@@ -915,31 +1016,47 @@ def run(tier, seed, replay=None):
             res.violation(*v)
 
     # ---------------- runs started through Driver.Discover
-    for ds in dscens:
-        g = go_lines[gi].strip()
-        gi += 1
-        evals += 1
-        dist["discover:" + ds.default_mode] = dist.get("discover:" + ds.default_mode, 0) + 1
-        nontriv.add(("discover", ds.go_req()))
-        rd = dict(kind="discover", discover=[ds.to_json()], observed=g)
-        if len(samples) < 14:
-            samples.append(dict(request=ds.go_req(), go=g))
+    def judge_discover(ds, g, conf_line, res):
+        rd = dict(kind="discover", discover=[ds.to_json()], observed=g, model=conf_line)
         if g.startswith("crashed "):
             res.violation("run-panics", "Driver.Discover (%s) killed the process: %s" % (ds.go_req(), g.split(" ", 1)[1]), rd)
-            continue
+            return
         if g.startswith("harness-error"):
             res.violation("harness-run", "discover scenario did not start: " + g, rd, False)
-            continue
+            return
         f, d = g.split(), kv(g)
-        cfg = "Driver.Discover with DiscoverySubnets=%s ProbeAsyncLimit=%d ProbeTimeoutSeconds=%d MaxDiscoverDurationSeconds=%d, every host '%s'" % (
+        # the configuration in force for this run according to the model: the last one delivered
+        md = kv("x " + conf_line)
+        try:
+            msub, masync, mprobe, mport, mmax = md["inforce"].split("/")
+            inforce = cfg([x for x in unhx(msub).decode().split(",") if x], int(masync), int(mprobe), int(mmax), {"1": "P", "2": "Q"}[mport])
+        except Exception:
+            res.violation("oracle-run", "oracle answer for the configuration history not understood: %r" % conf_line, rd, False)
+            return
+        if inforce != ds.final_cfg():
+            res.violation("model-differs:config", "the model's configuration in force %s is not the one delivered last %s" % (show_cfg(inforce), show_cfg(ds.final_cfg())), rd, False)
+            return
+        cfg_txt = "Driver.Discover with DiscoverySubnets=%s ProbeAsyncLimit=%d ProbeTimeoutSeconds=%d MaxDiscoverDurationSeconds=%d, every host '%s'" % (
             ",".join(ds.subnets), ds.async_limit, ds.probe_s, ds.max_s, ds.default_mode)
+        if ds.history:
+            cfg_txt = "service started with %s; then delivered through updateWritableConfig: %s; then %s" % (
+                show_cfg(ds.history[0]), ", ".join(show_cfg(e) for e in ds.history[1:] + [ds.final_cfg()]), cfg_txt)
+        hist = bool(ds.history)
+        if hist and int(d.get("qdials", 0)) > 0:
+            res.violation("config-update-not-applied:ScanPort", "%s: the run dialled the scan port of an EARLIER configuration %s time(s) (%s dials to the port last delivered)" % (
+                cfg_txt, d["qdials"], d["dials"]), rd)
+            return
+        if hist and int(d.get("outside", 0)) > 0:
+            res.violation("config-update-not-applied:DiscoverySubnets", "%s: %s dial(s) went to addresses outside the subnets last delivered (%s distinct addresses inside)" % (
+                cfg_txt, d["outside"], d.get("inside")), rd)
+            return
         if int(d["late"]) > 0:
             res.violation("probe-started-after-deadline", "%s: a host was dialled %s ms after the start, i.e. after the configured maximum (%d dial(s) later than max + %d ms; %s dials in all)" % (
-                cfg, d["lastdial_ms"], int(d["late"]), ds.late_slack_ms, d["dials"]), rd)
-            continue
+                cfg_txt, d["lastdial_ms"], int(d["late"]), ds.late_slack_ms, d["dials"]), rd)
+            return
         if f[0] == "blocked":
-            res.violation("run-exceeds-max-duration", "%s had not returned after %d ms (%s dials)" % (cfg, ds.budget_ms, d["dials"]), rd)
-            continue
+            res.violation("run-exceeds-max-duration", "%s had not returned after %d ms (%s dials)" % (cfg_txt, ds.budget_ms, d["dials"]), rd)
+            return
         by_ip = {h["ip"]: h for h in ds.hosts}
         rep = {}
         for x in [x for x in d.get("reported", "").split(",") if x]:
@@ -949,20 +1066,75 @@ def run(tier, seed, replay=None):
         for ip, names in rep.items():
             h = by_ip.get(ip)
             if h is None or MODEL_BEH[h["mode"]] != "answer":
-                res.violation("unidentified-reported", "%s: host %s (behaviour %s) was reported as %r" % (cfg, ip, h["mode"] if h else ds.default_mode, names), rd)
+                res.violation("unidentified-reported", "%s: host %s (behaviour %s) was reported as %r" % (cfg_txt, ip, h["mode"] if h else ds.default_mode, names), rd)
                 bad = True
             elif names != [spec_name(h["v"], h["m"], h["t"], h["rid"])]:
-                res.violation("name-wrong:run", "%s: host %s reported as %r, the rule gives %r" % (cfg, ip, names, spec_name(h["v"], h["m"], h["t"], h["rid"])), rd)
+                res.violation("name-wrong:run", "%s: host %s reported as %r, the rule gives %r" % (cfg_txt, ip, names, spec_name(h["v"], h["m"], h["t"], h["rid"])), rd)
                 bad = True
         if bad:
-            continue
+            return
         if d["published"] != "1":
-            res.violation("result-not-published", "%s returned but handed %s result lists to the SDK's channel" % (cfg, d["published"]), rd, False)
-            continue
+            res.violation("result-not-published", "%s returned but handed %s result lists to the SDK's channel" % (cfg_txt, d["published"]), rd, False)
+            return
         dialled = set(x for x in d.get("probed", "").split(",") if x)
         want = set(h["ip"] for h in ds.hosts if MODEL_BEH[h["mode"]] == "answer" and h["ip"] in dialled)
         if set(rep) != want:
-            res.violation("model-differs:discover", "%s: readers dialled and answering %s, reported %s" % (cfg, sorted(want), sorted(rep)), rd, False)
+            res.violation("model-differs:discover", "%s: readers dialled and answering %s, reported %s" % (cfg_txt, sorted(want), sorted(rep)), rd, False)
+            return
+        # the other settings of the configuration last delivered, as far as the hosts' side can see them
+        if "inside" not in d:
+            return
+        inside, wave, gap, el = int(d["inside"]), int(d["wave"]), int(d["gap_ms"]), int(f[1])
+        nadr = ds.n_addresses()
+        if ds.max_s == 0 and not ds.hosts and inside != nadr:
+            # no maximum: every address of the subnets is dialled (none is registered here)
+            sig = "config-update-not-applied:" + ("DiscoverySubnets" if ds.default_mode == "close" else "MaxDiscoverDurationSeconds") if hist else "model-differs:discover"
+            res.violation(sig, "%s: no maximum duration in force, yet only %d of the %d addresses of the subnets were dialled (run returned after %d ms)" % (
+                cfg_txt, inside, nadr, el), rd, hist)
+            return
+        if ds.default_mode == "silent" and not ds.hosts:
+            # a silent host holds a worker for exactly one probe timeout: the first wave of dials shows the worker limit,
+            # the rhythm of a single worker shows the probe timeout
+            if nadr >= ds.async_limit and wave != ds.async_limit:
+                res.violation("config-update-not-applied:ProbeAsyncLimit" if hist else "model-differs:discover",
+                              "%s: %d host(s) were dialled in the first %d ms; with silent hosts that is the number of workers, ProbeAsyncLimit in force is %d" % (
+                                  cfg_txt, wave, ds.probe_s * 600, ds.async_limit), rd, hist)
+                return
+            if ds.async_limit == 1 and ds.max_s >= 2 * ds.probe_s and gap < 0:
+                gap = ds.max_s * 1000      # a single dial in the whole run: the worker was held at least that long
+            if ds.async_limit == 1 and gap >= 0 and abs(gap - ds.probe_s * 1000) > 450:
+                res.violation("config-update-not-applied:ProbeTimeoutSeconds" if hist else "model-differs:discover",
+                              "%s: the single worker dialled silent hosts every %d ms (median); ProbeTimeoutSeconds in force is %d" % (cfg_txt, gap, ds.probe_s), rd, hist)
+                return
+
+    n_armed = 0
+    for j, ds in enumerate(dscens):
+        g = go_lines[gi].strip()
+        gi += 1
+        evals += 1
+        key = "discover:" + ("history" if ds.history else ds.default_mode[:40])
+        dist[key] = dist.get(key, 0) + 1
+        nontriv.add(("discover", ds.go_req()))
+        conf_line = olines[conf_base + j].strip()
+        if len(samples) < 14 or (ds.history and len(samples) < 17):
+            samples.append(dict(request=ds.go_req(), go=g, model=conf_line))
+        n_armed += "debounce=armed" in g
+        sink = Sink()
+        judge_discover(ds, g, conf_line, sink)
+        timing = ("config-update-not-applied:ProbeAsyncLimit", "config-update-not-applied:ProbeTimeoutSeconds", "model-differs:discover")
+        if sink.violations and all(v[0] in timing for v in sink.violations):
+            # read off the rhythm of the dials: judged on a re-run of the scenario alone
+            rc2, again, _ = vlib.run_harness(exe, "TestVerifC17", ds.go_req() + "\n", timeout=int(ds.budget_ms / 1000 + 120), tag="_retry_disc")
+            if rc2 == 0 and len(again) == 1:
+                first = sink.violations
+                sink = Sink()
+                judge_discover(ds, again[0].strip(), conf_line, sink)
+                res.notes.append("discover scenario '%s' (%s): %s in the batch; re-run alone: %s" % (
+                    ds.label, ",".join(ds.subnets), ", ".join(sorted(set(v[0] for v in first))), ", ".join(sorted(set(v[0] for v in sink.violations))) or "as configured"))
+        for v in sink.violations:
+            res.violation(*v)
+    res.notes.append("configuration histories: %d Driver.Discover runs after deliveries through updateWritableConfig; the last delivery left the debounced discovery armed in %d (disarmed by the harness)" % (
+        sum(1 for ds in dscens if ds.history), n_armed))
 
     if blocked_modes or blocked_runs:
         what = ("a host that accepts the TCP connection and then stops talking without closing it blocks probe() for ever "
